@@ -80,6 +80,46 @@ def m_unwrap(ip, st, fr, t, args):
     return [(None, Opaque("unwrapped", v)), ("panic", None, {"kind": "unwrap-opaque", "callee": t["callee"]["path"]})]
 
 
+def m_range_index(ip, st, fr, t, args):
+    """<[T; N] / [T] / Vec<T> as Index<Range*>>::index: panics unless start <= end <= len"""
+    full = t["callee"].get("full") or ""
+    idx = args[1]
+    if isinstance(idx, Ref):
+        idx = ip.read_loc(st, idx.root, idx.path)
+    # length of the indexed sequence when the type tells it
+    n = None
+    try:
+        ty = ip.types[ip.operand_ty(t["args"][0])]
+        while ty["k"] in ("ref", "ptr"):
+            ty = ip.types[ty["to"]]
+        if ty["k"] == "array" and ty.get("len") is not None:
+            n = int(ty["len"])
+    except Exception:
+        n = None
+    start = end = None
+    if isinstance(idx, Agg) and all(isinstance(x, Int) for x in idx.fields):
+        if "RangeFrom<" in full and len(idx.fields) == 1:
+            start = idx.fields[0].bits
+        elif "RangeTo<" in full and len(idx.fields) == 1:
+            end = idx.fields[0].bits
+        elif "Range<" in full and len(idx.fields) == 2:
+            start, end = idx.fields[0].bits, idx.fields[1].bits
+    if start is None and end is None:
+        return None
+    Mx = bv.M
+    bad = 0
+    w = len(start if start is not None else end)
+    if start is not None and end is not None:
+        bad = Mx.OR(bad, bv.ult(end, start))
+    if n is not None:
+        hi = end if end is not None else start
+        bad = Mx.OR(bad, bv.ult(bv.const(n, w), hi))
+    view = Opaque("subslice", (start, end))
+    if bad == 0:
+        return view
+    return [("panic", bad, {"kind": "slice-index", "op": "range index out of bounds", "callee": t["callee"]["path"]}), (Mx.NOT(bad), view)]
+
+
 def m_is_variant(variant):
     def f(ip, st, fr, t, args):
         v = args[0]
@@ -283,6 +323,10 @@ def is_int_convert(path, full):
     return bool(_FROM_INT.match(full)) or full.startswith("<u") and "as std::convert::From<" in full and full.endswith(">::from")
 
 
+def is_range_index(path, full):
+    return (path.endswith("::index") or path.endswith("::index_mut")) and ("ops::Range" in full) and ("[" in full or "Vec<" in full)
+
+
 def standard_models():
     models = {
         "<std::result::Result<T, E> as std::ops::Try>::branch": m_try_branch,
@@ -322,6 +366,7 @@ def standard_models():
     patterns = [
         (lambda p, f: bool(_INT_TY.match(p or "")), int_method),
         (is_int_convert, m_int_convert),
+        (is_range_index, m_range_index),
         (lambda p, f: (p or "").startswith("core::fmt::rt::") or (p or "").startswith("std::fmt::Arguments") or (p or "").startswith("core::fmt::Arguments") or (p or "").startswith("std::fmt::rt::"), m_opaque("fmt")),
         (lambda p, f: (p or "").startswith("anyhow::__private::"), m_anyhow),
         (lambda p, f: (p or "").startswith("anyhow::context::<impl anyhow::Context<") and ((p or "").endswith("::with_context") or (p or "").endswith("::context")), m_identity0),
